@@ -20,8 +20,9 @@ def Approx (y x e : K) : Prop := |y - x| ≤ e * |x|
 theorem approx_refl (x : K) : Approx x x 0 := by simp [Approx]
 
 /-- rounding an approximation: relative errors compose multiplicatively -/
-theorem approx_cast (cast : K → K) (u : K) (hu : 0 ≤ u) (hc : ∀ x, |cast x - x| ≤ u * |x|)
-    {y x e : K} (he : 0 ≤ e) (h : Approx y x e) : Approx (cast y) x ((1 + e) * (1 + u) - 1) := by
+theorem approx_cast (cast : K → K) (u : K) (hu : 0 ≤ u)
+    {y x e : K} (hc : |cast y - y| ≤ u * |y|) (he : 0 ≤ e) (h : Approx y x e) :
+    Approx (cast y) x ((1 + e) * (1 + u) - 1) := by
   unfold Approx at *
   have h1 : |cast y - x| ≤ |cast y - y| + |y - x| := by
     have : cast y - x = (cast y - y) + (y - x) := by ring
@@ -30,7 +31,7 @@ theorem approx_cast (cast : K → K) (u : K) (hu : 0 ≤ u) (hc : ∀ x, |cast x
     have : y = x + (y - x) := by ring
     calc |y| = |x + (y - x)| := by rw [← this]
       _ ≤ |x| + |y - x| := abs_add_le _ _
-  have h3 := hc y
+  have h3 := hc
   have hx : 0 ≤ |x| := abs_nonneg x
   have h4 : u * |y| ≤ u * (|x| + e * |x|) := by
     apply mul_le_mul_of_nonneg_left _ hu
@@ -59,5 +60,28 @@ theorem approx_mul {a' a b' b ea eb : K} (hea : 0 ≤ ea) (heb : 0 ≤ eb)
   have p3 : |a' - a| * |b' - b| ≤ (ea * |a|) * (eb * |b|) :=
     mul_le_mul ha hb hdb (mul_nonneg hea ha0)
   nlinarith [t1, p1, p2, p3]
+
+/-- an approximation with relative error at most 1/2 of a value that is inside `[2·lo, hi/2]` is
+    itself inside `[lo, hi]` -/
+theorem approx_in_range {y x e lo hi : K} (he : 0 ≤ e) (he2 : e ≤ 1 / 2) (h : Approx y x e)
+    (hlo : 2 * lo ≤ |x|) (hhi : |x| ≤ hi / 2) : lo ≤ |y| ∧ |y| ≤ hi := by
+  unfold Approx at h
+  have hx : 0 ≤ |x| := abs_nonneg x
+  have h1 : |y| ≤ |x| + |y - x| := by
+    have : y = x + (y - x) := by ring
+    calc |y| = |x + (y - x)| := by rw [← this]
+      _ ≤ |x| + |y - x| := abs_add_le _ _
+  have h2 : |x| ≤ |y| + |y - x| := by
+    have : x = y + (x - y) := by ring
+    calc |x| = |y + (x - y)| := by rw [← this]
+      _ ≤ |y| + |x - y| := abs_add_le _ _
+      _ = |y| + |y - x| := by rw [abs_sub_comm]
+  have h3 : e * |x| ≤ 1 / 2 * |x| := mul_le_mul_of_nonneg_right he2 hx
+  constructor <;> nlinarith
+
+/-- (1+u)^k − 1 ≤ 1/2 for k ≤ 3 when u ≤ 1/16 -/
+theorem small3 {u : K} (h0 : 0 ≤ u) (h : u ≤ 1 / 16) :
+    (1 + u) * (1 + u) - 1 ≤ 1 / 2 ∧ (1 + ((1 + u) * (1 + u) - 1)) * (1 + u) - 1 ≤ 1 / 2 := by
+  constructor <;> nlinarith [mul_nonneg h0 h0, mul_nonneg (mul_nonneg h0 h0) h0]
 
 end Unyt.C17R
